@@ -527,7 +527,8 @@ class SsdpSearchResponder:
                 remote_addr,
                 responses,
             )
-        self._send_responses(remote_addr, responses)
+        else:
+            self._send_responses(remote_addr, responses)
 
     def _build_responses(self, headers: CaseInsensitiveDict) -> List[bytes]:
         # Determine how we should respond, page 1.3.2 of UPnP-arch-DeviceArchitecture-v2.0.
